@@ -20,10 +20,10 @@ ElevPool == {Alert(0, Some([st |-> s, plat |-> p, el |-> e]), <<[NoSel EXCEPT !.
                : s \in {1, 2}, p \in {1, 2}, e \in {1, 2}}
              \cup {Alert(0, Some([st |-> 3, plat |-> 0, el |-> 1]), <<>>, Some(2), None, Some(3))}
 OtherPool == {Alert(id, None, <<[NoSel EXCEPT !.route = Some(2), !.prio = p]>>, Some(2), Some(4), m)
-                : id \in {1, 4, 5}, p \in {None} \cup {Some(n) : n \in 1..41}, m \in {None, Some(3)}}
+                : id \in {1, 4, 5}, p \in {None} \cup {Some(n) : n \in 1..44}, m \in {None, Some(3)}}
              \cup {Alert(1, None, <<[NoSel EXCEPT !.route = Some(2), !.prio = Some(a)], [NoSel EXCEPT !.stop = Some(19), !.prio = Some(b)],
                                     [NoSel EXCEPT !.trip = Some([id |-> None, route |-> Some(3), dir |-> Some(1), st |-> None, sd |-> None, sr |-> None])]>>,
-                         None, None, Some(3)) : a \in {1, 2, 20, 41}, b \in {3, 9, 41}}
+                         None, None, Some(3)) : a \in {1, 2, 20, 41, 42}, b \in {3, 9, 41, 43}}
              \cup {Alert(2, None, <<>>, None, None, None)}
 
 SeqsUpTo(S, n) == UNION {[1..k -> S] : k \in 0..n}
